@@ -83,6 +83,10 @@ def update (w : World R) (h : Nat) (t : Tape R) : World R := fun j => if j = h t
 /-- `WengertList::clear` (differentiation.rs:672). -/
 def clear (w : World R) (h : Nat) : World R := w.update h []
 
+/-- `Clone for WengertList` (differentiation.rs:790): a new list `dst` holding a copy of the
+    entries of `src`; records keep pointing to the list they were made on. -/
+def cloneTape (w : World R) (src dst : Nat) : World R := w.update dst (w src)
+
 end World
 
 /-! ## Local derivative rules (functions.rs) -/
@@ -187,6 +191,17 @@ def sameList (a b : Rec R) : Bool :=
   match a.history, b.history with
   | some la, some lb => la == lb
   | _, _ => true
+
+/-- `Clone for Record` (record_operations.rs:80): number, list and position are copied; the tape
+    is not touched. -/
+def clone (r : Rec R) : Rec R := ⟨r.number, r.history, r.index⟩
+
+/-- `Record::from_existing` (differentiation.rs:547): "the inputs are not checked for validity". -/
+def fromExisting (number : R × Nat) (history : Option Nat) : Rec R := ⟨number.1, history, number.2⟩
+
+/-- `Display for Record` (record_operations.rs:50): "a record is displayed by showing its number
+    component". -/
+def display (render : R → String) (r : Rec R) : String := render r.number
 
 section Basic
 variable [Zero R]
@@ -415,6 +430,42 @@ end Real
 
 end Rec
 
+/-! ## Comparisons (`PartialEq` / `PartialOrd` for `Record`, record_operations.rs:799-817) -/
+
+/-- The element type's `partial_cmp`, from the decisions of `NumOrd`; total for the exact element
+    types of the correspondence (`Fp`: order of the signed representative, `Rat`). -/
+def numPartialCmp {R : Type} [NumOrd R] (x y : R) : Option Ordering :=
+  some (if NumOrd.lt x y then .lt else if NumOrd.eq x y then .eq else .gt)
+
+/-- `PartialOrd::lt/le/gt/ge` are the trait's default methods on top of `partial_cmp`. -/
+def ordLt : Option Ordering → Bool
+  | some .lt => true
+  | _ => false
+def ordLe : Option Ordering → Bool
+  | some .lt => true
+  | some .eq => true
+  | _ => false
+def ordGt : Option Ordering → Bool
+  | some .gt => true
+  | _ => false
+def ordGe : Option Ordering → Bool
+  | some .gt => true
+  | some .eq => true
+  | _ => false
+
+namespace Rec
+variable {R : Type} [NumOrd R]
+
+/-- `PartialEq::eq`: "only the number parts of the record are compared".  There is no
+    `same_list` test and the lists are not touched: the world is returned as it was. -/
+def eq (a b : Rec R) (w : World R) : Bool × World R := (NumOrd.eq a.number b.number, w)
+
+/-- `PartialOrd::partial_cmp`: `self.number.partial_cmp(&other.number)`. -/
+def partialCmp (a b : Rec R) (w : World R) : Option Ordering × World R :=
+  (numPartialCmp a.number b.number, w)
+
+end Rec
+
 /-! ## The reverse sweep (`Record::try_derivatives`, differentiation.rs:618-646) -/
 
 section Sweep
@@ -556,6 +607,18 @@ def numPow (c : R) (b : Dual R) : Dual R :=
   ⟨RealFns.pow c b.number, b.derivative * RealFns.pow c b.number * RealFns.ln c⟩
 
 end Real
+
+/-- `Clone for Trace` (trace_operations.rs:76). -/
+def clone (a : Dual R) : Dual R := ⟨a.number, a.derivative⟩
+
+/-- `Display for Trace` (trace_operations.rs:46): the number. -/
+def display (render : R → String) (a : Dual R) : String := render a.number
+
+/-- `PartialEq for Trace` (trace_operations.rs:102): numbers only. -/
+def eq [NumOrd R] (a b : Dual R) : Bool := NumOrd.eq a.number b.number
+
+/-- `PartialOrd for Trace` (trace_operations.rs:120). -/
+def partialCmp [NumOrd R] (a b : Dual R) : Option Ordering := numPartialCmp a.number b.number
 
 end Dual
 
